@@ -17,9 +17,9 @@ from cryptography.hazmat.primitives import hashes
 from cryptography.hazmat.primitives.asymmetric import ec, padding, utils as asym_utils
 
 PID = "C15"
-THEOREMS = ["struct_roundtrip", "dc_roundtrip", "dc_roundtrip_p521_refuted", "dc_created_roundtrip_except_known",
-            "dc_sig_covers_all", "dc_verify_obligation", "dc_names_rot_key", "dc_rot_hash_rsa", "dar_embeds_dc_beacon", "dar_binds",
-            "dar_verify_sound", "dac_roundtrip", "parse_dispatch_except_known", "parse_dispatch_refuted"]
+THEOREMS = ["struct_roundtrip", "dc_roundtrip", "dc_roundtrip_p521", "dc_created_roundtrip", "dc_sig_covers_all",
+            "dc_verify_obligation", "dc_names_rot_key", "dc_rot_hash_rsa", "dar_embeds_dc_beacon", "dar_binds", "dar_verify_sound",
+            "dac_roundtrip", "parse_dispatch"]
 KEYDIR = os.path.join(vlib.WORK, PID, "keys")
 TMPDIR = os.path.join(vlib.WORK, PID, "tmp")
 KLASS = {"DebugCredentialCertificateRsa": 0, "DebugCredentialCertificateEcc": 1, "DebugCredentialEdgeLockEnclave": 2}
@@ -228,7 +228,8 @@ class World:
 
 
 def known_class(case, w):
-    """input classes of the recorded findings (known_findings.d/c15.json)"""
+    """input classes of the five repaired defects (C15-F1..F4; F5 is `dcv2:field:socc`): only used to tag the oracle
+    signatures, so that a regression is reported under a specific name -- nothing is excused"""
     f = w.facts(case)
     kts = [ktype(k) for k in case["keys"]]
     rid = case["rot_id"]
@@ -373,6 +374,18 @@ def gen_cases(tier, rng, w):
                          {"uuid": u2.hex(), "challenge": rng.choice(ch[3:]).hex(), "beacon": M32}]
         cs.append(c)
     streams["authentication responses: several challenges / device uuids / beacons per credential"] = cs
+    # ---- 5. EdgeLock container version 2 (AHAB certificate): outside the Coq model, spec oracles only
+    cs = []
+    for f in ele2:
+        for kt in (KTYPES if thorough else ["p256", "p384", "p521", "r2048"]):
+            for k in range(3 if thorough else 1):
+                ids = list(range(5))
+                rng.shuffle(ids)
+                uu = bytes([rng.randrange(1, 256)] + [rng.getrandbits(8) for _ in range(15)])   # value_to_bytes drops leading zero bytes
+                cs.append({"op": "dc", "v2": 1, "family": f["family"], "revision": f["revision"], "keys": [f"{kt}_{ids[0]}"], "rot_id": 0,
+                           "rotk": f"{kt}_{ids[0]}", "dck": f"{kt}_{ids[1]}", "uuid": uu.hex(), "socu": val32(), "vu": 0, "beacon": 0,
+                           "fuse_version": rng.choice([0, 1, 255])})
+    streams["EdgeLock container-v2 credentials (AHAB certificate; oracle only)"] = cs
     return streams
 
 
@@ -381,7 +394,7 @@ def derived_streams(tier, rng, w, dc_cases, dc_results):
     thorough = tier == "thorough"
     exports = []
     for c, r in zip(dc_cases, dc_results):
-        if isinstance(r.get("export"), str) and regular(c, w) and not known_class(c, w):
+        if isinstance(r.get("export"), str) and not c.get("v2") and regular(c, w):
             exports.append((c, bytes.fromhex(r["export"])))
     streams = {}
     # ---- parse of damaged credentials
@@ -623,9 +636,63 @@ def oracle_dc(case, r, w):
     return out
 
 
+def oracle_dcv2(case, r, w):
+    """EdgeLock container version 2: the credential is an AHAB certificate (documented layout: header, signature offset,
+    permissions, 96-bit permission data = SoC class | SoC usage | beacon, fuse version, uuid, DCK record, signature)."""
+    out = []
+    f = w.facts(case)
+
+    def bad(issue, msg):
+        out.append((f"dcv2:{issue}", f"{msg} [family {case['family']} rev {case['revision']} signer {case['rotk']} dck {case['dck']} "
+                    f"uuid {case['uuid']} socu {case['socu']}]"))
+    for step in ("create", "sign", "export"):
+        v = r.get(step)
+        if isinstance(v, dict) and "err" in v:
+            bad("hang" if v.get("err") == 3 else "rejects-valid", f"{step} fails on a regular configuration ({v.get('exc')})")
+            return out
+    b = bytes.fromhex(r["export"])
+    p = r["parse"]
+    if "err" in p:
+        bad("roundtrip", f"the exported credential cannot be parsed back ({p.get('exc')})")
+    else:
+        diff = [k for k in ("cls", "socc", "socu", "beacon", "uuid", "perm", "perm_data", "fuse") if p["fields"].get(k) != r["create"].get(k)]
+        if diff or p["eq"] is not True or p["reexport"] != r["export"]:
+            bad("roundtrip", f"parse(export(dc)) differs from dc in {diff or 'equality/re-export'}")
+    if len(b) < 0x28 or b[0] != 2 or b[3] != 0xAF or struct.unpack_from("<H", b, 1)[0] != len(b):
+        bad("layout", "not an AHAB certificate of the exported length")
+        return out
+    so = struct.unpack_from("<H", b, 4)[0]
+    if b[6] != (~b[7] & 0xFF) or not (b[7] & 0x02):
+        bad("field:permissions", f"permissions {b[7]:#x} / inverted {b[6]:#x}: debug permission missing or not inverted")
+    want_pd = struct.pack("<LLL", f["socc"], case["socu"], 0)
+    if b[8:12] != want_pd[:4]:
+        bad("field:socc", f"SoC class in the permission data is {b[8:12].hex()}, the family's SOCC is {want_pd[:4].hex()}")
+    if b[12:20] != want_pd[4:]:
+        bad("field:socu", f"SoC usage / beacon in the permission data are {b[12:20].hex()}, specified {want_pd[4:].hex()}")
+    if b[0x14] != case.get("fuse_version", 0):
+        bad("field:fuse_version", f"fuse version {b[0x14]}")
+    if b[0x18:0x28] != bytes.fromhex(case["uuid"]):
+        bad("field:uuid", f"uuid {b[0x18:0x28].hex()}")
+    dck, signer = w.pool[case["dck"]], w.pool[case["rotk"]]
+    kb = (dck["n"].to_bytes(dck["bits"] // 8, "big")) if dck["k"] == "rsa" else key_blob_min(dck)
+    if not (0x28 < so <= len(b)) or kb not in b[0x28:so]:
+        bad("field:dck", "the DCK numbers are not inside the signed part of the certificate")
+        return out
+    sc = b[so:]
+    sl = sig_len(signer)
+    if len(sc) != 8 + sl or sc[3] != 0xD8 or struct.unpack_from("<H", sc, 1)[0] != len(sc):
+        bad("layout", f"signature container of {len(sc)} bytes at {so:#x}")
+        return out
+    if not verify_sig(signer, b[:so], sc[8:], True):
+        bad("signature", f"signature does not verify under the signing (SRK) key over bytes [0,{so:#x})")
+    elif verify_sig(signer, b[:so - 1] + bytes([b[so - 1] ^ 1]), sc[8:], True):
+        bad("signature", "signature still verifies after the last signed byte is changed")
+    return out
+
+
 def oracle_dar(case, r, w):
     out = []
-    if not regular(case, w) or known_class(case, w) or not isinstance(r.get("export"), str):
+    if not regular(case, w) or not isinstance(r.get("export"), str):
         return out
     f = w.facts(case)
     dcb = bytes.fromhex(r["export"])
@@ -634,7 +701,7 @@ def oracle_dar(case, r, w):
     sl = sig_len(dck)
 
     def bad(issue, msg):
-        out.append((f"dar:regular:{issue}", f"{msg} [family {case['family']} rev {case['revision']} keys {case['keys']} dck {case['dck']}]"))
+        out.append((f"dar:{known_class(case, w) or 'regular'}:{issue}", f"{msg} [family {case['family']} rev {case['revision']} keys {case['keys']} dck {case['dck']}]"))
 
     resp = r.get("responses", [])
     if len(resp) != len(case["requests"]):
@@ -810,7 +877,9 @@ def run(tier):
     nviol = 0
     for c, r in zip(flat, impl):
         hits = []
-        if c["op"] in ("dc", "dar"):
+        if c["op"] in ("dc", "dar") and c.get("v2"):
+            hits += oracle_dcv2(c, r, w)
+        elif c["op"] in ("dc", "dar"):
             hits += oracle_dc(c, r, w)
         if c["op"] == "dar":
             hits += oracle_dar(c, r, w)
@@ -922,10 +991,6 @@ def run(tier):
                             ok = False
                     detail = f"response {rs[1][:80]} model {str(mv)[:200]}"
                 if not ok:
-                    # an upstream repair inside a recorded class is not a disagreement to report
-                    kc = known_class(c, w) if c["op"] in ("dc", "dar") else None
-                    if kc and not oracle_dc(c, r, w):
-                        continue
                     ndis += 1
                     if ndis <= 40:
                         dis_samples.append({"kind": str(kind), "case": {k: v for k, v in c.items() if not k.startswith("_")},
